@@ -89,11 +89,12 @@ def gen_plan(rng, tier='quick', config='B', traces=None):
                 fam = 'trace:' + name
             else:
                 fam, pts = curves.gen_curve(rng, curves.draw_n(rng, tier), rng.choice(fams))
-            pool.append({'family': fam, 'points': [[fhex(x), fhex(y)] for x, y in pts]})
+            pool.append({'family': fam, 'points': [[fhex(x), fhex(y)] for x, y in pts], 'readonly': rng.random() < 0.2})
             ci = len(pool) - 1
         mode = rng.choice(['shared', 'shared', 'shared', 'default', 'fresh']) if config != 'A' \
             else rng.choice(['shared', 'shared', 'default', 'fresh'])
-        sessions.append({'curve': ci, 'api': rng.choice(APIS), 'mode': mode})
+        sessions.append({'curve': ci, 'api': rng.choice(APIS), 'mode': mode,
+                         'cache_kind': rng.choice(['dict', 'dict', 'dict', 'OrderedDict', 'defaultdict'])})
     nsteps = rng.randint(4, 60 if tier == 'quick' else 200)
     cur = {}
     steps = []
@@ -156,7 +157,7 @@ def gen_plan(rng, tier='quick', config='B', traces=None):
         kind = rng.choice(moves)
         R = _move(rng, n, cur[s], kind)
         cur[s] = R
-        q = {'s': s, 'op': 'Q', 'R': list(R), 'rt': rng.choice(['nd', 'nd', 'list', 'slist', 'nd32', 'nd16'])}
+        q = {'s': s, 'op': 'Q', 'R': list(R), 'rt': rng.choice(['nd', 'nd', 'list', 'slist', 'nd32', 'nd16', 'ro', 'tuple'])}
         steps.append(q)
         last_q[s] = q
         prev_kind = kind if kind in ('refine', 'coarsen') else 'Q'
@@ -201,6 +202,11 @@ def _call(ev, metrics, sess, R, rt, cache_kind):
         Rarg = np.array(R, dtype=np.int32)
     elif rt == 'nd16':
         Rarg = np.array(R, dtype=np.int16 if len(sess.points) < 30000 else np.int32)
+    elif rt == 'ro':
+        Rarg = np.array(R, dtype=np.int64)
+        Rarg.flags.writeable = False       # e.g. indices that live in a memory-mapped or shared read-only array
+    elif rt == 'tuple':
+        Rarg = tuple(int(r) for r in R)
     elif rt == 'slist':
         # one list object per session, edited in place between queries (what rdp._grdp does: append + sort)
         sess.rlist[:] = [int(r) for r in R]
@@ -226,6 +232,16 @@ def _call(ev, metrics, sess, R, rt, cache_kind):
     if args is None:
         return ev.compute_global_cost(sess.points, Rarg, m)
     return ev.compute_global_cost(sess.points, Rarg, m, args[0])
+
+
+def _new_cache(kind):
+    """The caller's cache object: any dict will do for the API."""
+    import collections
+    if kind == 'OrderedDict':
+        return collections.OrderedDict()
+    if kind == 'defaultdict':
+        return collections.defaultdict(float)
+    return {}
 
 
 def _valid_R(R, n, minlen):
@@ -257,6 +273,9 @@ def execute(plan, stats=None, check=True, want_events=True):
         st[k] = st.get(k, 0) + d
 
     pool = [np.array([[unhex(x), unhex(y)] for x, y in c['points']], dtype=float) for c in plan['pool']]
+    for c, arr in zip(plan['pool'], pool):
+        if c.get('readonly'):
+            arr.flags.writeable = False
     sessions = []
     for sd in plan['sessions']:
         s = _Sess()
@@ -264,7 +283,8 @@ def execute(plan, stats=None, check=True, want_events=True):
         s.curve = sd['curve']
         s.api = sd['api']
         s.mode = sd['mode']
-        s.cache = {}
+        s.ckind = sd.get('cache_kind', 'dict')
+        s.cache = _new_cache(s.ckind)
         s.snaps = []
         s.tainted = False
         s.snap_taint = []
@@ -370,7 +390,7 @@ def execute(plan, stats=None, check=True, want_events=True):
                     bump('fault.RESTART')
                 else:
                     bump('fault.idle')
-                s.cache = {}
+                s.cache = _new_cache(s.ckind)
                 s.tainted = False
                 events.append([k, stp['s'], 'RESTART'])
             elif op == 'SNAPSHOT':
